@@ -12,8 +12,8 @@ LEAN_SETTING_NOTE = (
     "of entries, H0 = diag(E) with real E, solver = entry-wise division on eliminated entries; PV.MatrixModel.main_theorems / two_block_theorems state C01-C03 for that "
     "model with no abstract class left.  The hypotheses of the model (classification symmetric under transposition, diagonal entries kept, no kept entry in "
     "eliminated x kept products inside commuting blocks, energies of eliminated pairs differ) are the call-site obligations discharged by the PyVC units on masks, "
-    "flags and solver in this run.  Still assumed: numpy / scipy / sympy arrays implement matrix arithmetic (A-NP, A-SC, A-SY) and the finite-sum lemma linking the "
-    "fold of product_by_order to the antidiagonal sum (C18).  The two-block-optimised variant of `main` (two_block_optimized = True: exactly two "
+    "flags and solver in this run.  Still assumed: numpy / scipy / sympy arrays implement matrix arithmetic (A-NP, A-SC, A-SY) ; the finite-sum lemma linking the iteration set of product_by_order to the "
+    "antidiagonal sum is PV.Bridge.coeff_mul_blocks (C18).  The two-block-optimised variant of `main` (two_block_optimized = True: exactly two "
     "blocks, no fully_diagonalize) is covered by PV/TwoBlock.lean: under the class TwoBlocks (no eliminated or non-commuting diagonal part; products of "
     "block-diagonal / block-off-diagonal elements are block-diagonal / off-diagonal as for 2 x 2 block matrices - A-MATH; the flag is set only in that "
     "situation - PyVC obligation of unit bd_masks) every solution of the optimised equations solves the general equations (PV.TB.toMain), so all theorems apply."
